@@ -486,7 +486,20 @@ class VTty:
         self._leave(n)
         return self.clock
 
+    # What standard output / the `shutil` fallback report when standard output is NOT the active terminal:
+    #   None (default) - stdout is the terminal: every fd and the fallback report the terminal's size;
+    #   (cols, rows)   - os.get_terminal_size(fd) raises OSError for every fd but the tty's own, and
+    #                    shutil.get_terminal_size() (COLUMNS/LINES or its fallback) reports this size.
+    stdout_size = None
+
     def get_terminal_size(self, fd=None):
+        if self.stdout_size is not None and fd != TTY_FD:
+            raise OSError(25, "Inappropriate ioctl for device")
+        return os.terminal_size((self.cols, self.rows))
+
+    def shutil_terminal_size(self):
+        if self.stdout_size is not None:
+            return os.terminal_size(tuple(self.stdout_size))
         return os.terminal_size((self.cols, self.rows))
 
 
@@ -755,7 +768,7 @@ def install(tty, stdout=None, clock=None):
     u.fcntl = _FcntlProxy(tty)
     u.select = tty.select
     u.monotonic = tty.monotonic
-    u._get_terminal_size = lambda *a, **k: tty.get_terminal_size()
+    u._get_terminal_size = lambda *a, **k: tty.shutil_terminal_size()
     L._renderable.termios = _TermiosProxy(tty)
     if stdout is not None:
         sys.stdout = stdout
